@@ -376,6 +376,70 @@ def explore_warm_cache():
                     found.append(dict(prop='C06', scenario=f'warm-cache/{b1}-{b2}', message='the warm call returned other values than the cold call'))
                 if found:
                     return found
+    found += explore_cache_histories()
+    return found
+
+
+def explore_cache_histories():
+    """Longer histories over one caching storage, counting executions by mark files:
+      (a) cold run, then bust_cache=True: everything the request needs is executed again, dependencies first, values right;
+      (b) a cached task with an un-cached dependency is later reached through two equal-but-distinct instances: it is loaded,
+          and its dependency is neither executed nor needed."""
+    import labtech
+    from replay.universe import KC, KN
+    logging.getLogger('labtech').setLevel(logging.CRITICAL)
+    found = []
+
+    def names(marks):
+        return sorted(f.split('-')[0] for f in os.listdir(marks))
+    for backend in ('serial', 'fork'):
+        with tempfile.TemporaryDirectory() as d, tempfile.TemporaryDirectory() as marks:
+            os.environ['EXPLORE_EXEC_DIR'] = marks
+            try:
+                leaf = KC('l')
+                mid = KC('m', (leaf,))
+                top = KC('t', (mid, leaf))
+                lab = labtech.Lab(storage=d, runner_backend=backend, max_workers=2)
+                r1 = lab.run_tasks([top], disable_progress=True, disable_top=True)
+                n1 = names(marks)
+                try:
+                    r2 = lab.run_tasks([top], bust_cache=True, disable_progress=True, disable_top=True)
+                except BaseException as ex:    # noqa
+                    r2 = {'raised': f'{type(ex).__name__}: {str(ex)[:150]}'}
+                n2 = names(marks)
+            finally:
+                os.environ.pop('EXPLORE_EXEC_DIR', None)
+            if n1 != ['l', 'm', 't']:
+                found.append(dict(prop='C03', scenario=f'history/{backend}/cold', message=f'the cold run executed {n1}, the closure is l, m, t'))
+            elif n2 != ['l', 'l', 'm', 'm', 't', 't'] or r2.get(top) != r1.get(top):
+                found.append(dict(prop='C02' if 'raised' in r2 or r2.get(top) != r1.get(top) else 'C03', scenario=f'history/{backend}/bust_cache after a cold run',
+                                  message=f'run_tasks(bust_cache=True) over a fully cached chain executed {n2[len(n1):] if len(n2) >= len(n1) else n2} '
+                                          f'(expected l, m, t once more, dependencies before dependents) and returned {r2.get(top, r2.get("raised"))!r}'))
+        if found:
+            return found
+        with tempfile.TemporaryDirectory() as d, tempfile.TemporaryDirectory() as marks:
+            os.environ['EXPLORE_EXEC_DIR'] = marks
+            try:
+                lab = labtech.Lab(storage=d, runner_backend=backend, max_workers=2)
+                lab.run_tasks([KC('c', (KN('d'),))], disable_progress=True, disable_top=True)
+                n1 = names(marks)
+                p1 = KC('p1', (KC('c', (KN('d'),)),))
+                p2 = KC('p2', (KC('c', (KN('d'),)),))           # an equal but distinct instance of the cached task
+                lab2 = labtech.Lab(storage=d, runner_backend=backend, max_workers=2)
+                r = lab2.run_tasks([p1, p2], disable_progress=True, disable_top=True)
+                n2 = names(marks)
+            finally:
+                os.environ.pop('EXPLORE_EXEC_DIR', None)
+            extra = list(n2)
+            for x in n1:
+                extra.remove(x)
+            if sorted(extra) != ['p1', 'p2']:
+                found.append(dict(prop='C03', scenario=f'history/{backend}/cached task reached through two equal instances',
+                                  message=f'c is cached and its dependency d is not needed by anything that runs, yet the second call executed {sorted(extra)} (expected only p1, p2)'))
+            elif p1 not in r or p2 not in r:
+                found.append(dict(prop='C01', scenario=f'history/{backend}/cached task reached through two equal instances', message='a parent of the cached task did not get a result'))
+        if found:
+            return found
     return found
 
 
@@ -637,7 +701,7 @@ def main():
         if a.prop in ('C02', 'C01', 'C03', 'C06', ''):
             f3 = explore_multicall()
             mine3 = [f for f in f3 if not a.prop or f['prop'] == a.prop or a.prop == 'C01']
-            items.append(dict(name='explore:multi-call-histories', bounded=True, bound='2 histories of 3 run_tasks calls over the same task objects; 8 cold/warm call pairs over a caching storage (backend pairs x same/new Lab)',
+            items.append(dict(name='explore:multi-call-histories', bounded=True, bound='2 histories of 3 run_tasks calls over the same task objects; 8 cold/warm call pairs over a caching storage (backend pairs x same/new Lab); bust_cache after a cold run; a cached task reached through two equal instances',
                               violation=bool(mine3), witness=mine3[:3]))
         if a.prop in ('C01', 'C02', 'C03', ''):
             import replay.values as _V
